@@ -14,7 +14,9 @@ wt = sys.argv[3] if len(sys.argv) > 3 else "/tmp/seedwt/X%d" % (k + 1)
 head = subprocess.run(["git", "-C", "/repo", "log", "--format=%h", "-1"], capture_output=True, text=True).stdout.strip()
 subprocess.run(["git", "-C", wt, "checkout", "-q", "--", "."], check=True)
 subprocess.run(["git", "-C", wt, "checkout", "-q", "--detach", head], check=True)
-for i, d in enumerate(sorted(glob.glob("/verif/seeded/*/"))):
+only = os.environ.get("ONLY")  # substring filter on the seed directory name, e.g. ONLY=-r5-
+dirs = [d for d in sorted(glob.glob("/verif/seeded/*/")) if not only or only in d]
+for i, d in enumerate(dirs):
     if i % n != k:
         continue
     meta = json.load(open(d + "meta.json"))
